@@ -6,8 +6,8 @@ From J5V.model Require Import RulesDecl RulesWrite RulesRead RulesEnum RulesSpec
 From J5V.gen Require Id62Gen RulesGen.
 From J5V.model Require Import ProtoPrint ProtoPrintFile ProtoParseFile.
 From J5V.proofs Require Import RulesProofs RulesReadProofs RulesGenProofs RulesReadGenProofs.
-From J5V.model Require Import RulesView RulesTextModel ProtoPrintFileWf.
-From J5V.proofs Require Import ProtoPrintFileSemProofs ProtoPrintFileFullProofs RulesViewProofs RulesTextProofs.
+From J5V.model Require Import RulesView RulesTextModel ProtoPrintFileWf RulesNested RulesInlineEnum.
+From J5V.proofs Require Import ProtoPrintFileSemProofs ProtoPrintFileFullProofs RulesViewProofs RulesTextProofs RulesNestedProofs RulesInlineEnumProofs RulesEnumExactProofs.
 Import ListNotations.
 Local Open Scope N_scope.
 
@@ -81,6 +81,98 @@ Theorem C04_root_exact : forall env d o,
   (read_root env o = Ok (norm_root env d) <-> rt_root d = true).
 Proof. exact c04_root_exact. Qed.
 Print Assumptions C04_root_exact.
+
+(* ---- inline types (README "Inline Types") -------------------------------------------
+   A declaration is a tree [nschema]: a field of type object / oneof (singular, array items,
+   map values) may declare its schema in place, with a stated name or, by default,
+   strcase.ToCamel of the field name. [write_schema]: the compiler nests the message of the
+   inline schema in the declaring message and the field refers to it by path (Foo.Bar).
+   [read_tree]: the reflector returns, per message of the tree, a root schema named by the
+   path joined with '_' (Foo_Bar); the declaring field reads back as a reference to that
+   name. [norm_schema] is the declared tree, from the declaration alone. For every tree in
+   the fragment (every schema: plain description, properties in rt_ok), every path and name: *)
+Theorem C04_nested : forall env s path name m,
+  zero_std env = true -> tree_rt s = true ->
+  write_schema env path name s = Ok m ->
+  read_tree env path m = Ok (norm_schema env path name s).
+Proof. intros env s path name m Hstd. exact (c04_tree env Hstd s path name m). Qed.
+Print Assumptions C04_nested.
+
+(* ... and the fragment is exact for trees too: a compiled tree reads back as declared
+   iff every schema of it lies in the fragment *)
+Theorem C04_nested_exact : forall env s path name m,
+  zero_std env = true -> write_schema env path name s = Ok m ->
+  (read_tree env path m = Ok (norm_schema env path name s) <-> tree_rt s = true).
+Proof. intros env s path name m Hstd. exact (c04_tree_exact env Hstd s path name m). Qed.
+Print Assumptions C04_nested_exact.
+
+(* non-vacuity: Foo { someURL : inline object (default name) { a : string };
+                      items : array of inline oneof "Item" { deep : inline object { q : bool } } }
+   — the reflected schemas are Foo, Foo_SomeUrl, Foo_Item, Foo_Item_Deep, and the fields
+   refer to them by those names *)
+Example C04_nested_example :
+  let str_f n := P n false false (PSingle (TStr None None None)) [] in
+  let s := NS RObject None [100]
+             [NF (P [115;111;109;101;85;82;76] true false (PSingle (TObject [] false None)) [])
+                 (Some (NS RObject None [] [NF (str_f [97]) None]));
+              NF (P [105;116;101;109;115] false false (PArray None None (TOneof [] false None)) [])
+                 (Some (NS ROneof (Some [73;116;101;109]) []
+                           [NF (P [100;101;101;112] false false (PSingle (TObject [] false None)) [])
+                               (Some (NS RObject None [] [NF (P [113] false false (PSingle (TBool None None)) []) None]))]))] in
+  let names := fix names (t : rtree) : list str :=
+                 match t with RT r inner => rr_name r :: flat_map names inner end in
+  tree_rt s = true /\
+  exists m, write_schema (EE [] None []) [] [70;111;111] s = Ok m /\
+    read_tree (EE [] None []) [] m = Ok (norm_schema (EE [] None []) [] [70;111;111] s) /\
+    names (norm_schema (EE [] None []) [] [70;111;111] s)
+      = [[70;111;111]; [70;111;111;95;83;111;109;101;85;114;108]; [70;111;111;95;73;116;101;109];
+         [70;111;111;95;73;116;101;109;95;68;101;101;112]] /\
+    match norm_schema (EE [] None []) [] [70;111;111] s with
+    | RT r _ => map (fun p => p_ty (rp_prop p)) (rr_props r)
+                = [PSingle (TObject [70;111;111;95;83;111;109;101;85;114;108] false None);
+                   PArray None None (TOneof [70;111;111;95;73;116;101;109] false None)]
+    end.
+Proof.
+  split; [vm_compute; reflexivity|]. eexists. split; [vm_compute; reflexivity|].
+  split; [vm_compute; reflexivity|]. split; vm_compute; reflexivity.
+Qed.
+
+(* ---- enums declared inline in a field (model/RulesInlineEnum.v): the nested enum is named as
+   the declaration states or ToCamel(field name), its prefix is the stated one or
+   ToScreamingSnake(name) + "_"; the field's in / not-in rules are over that enum
+   ([env_of_decl]); the reflector knows the enum as the schema <Outer>_<Name>. For every
+   field in rt_ok over an inline enum in the enum fragment: *)
+Theorem C04_inline_enum : forall here idx d i c,
+  inline_enum_rt d i = true -> write_inline_enum idx d i = Ok c ->
+  read_inline_enum (env_of_decl (ie_decl (p_name d) i)) here c = Ok (norm_inline_enum here idx d i).
+Proof. exact c04_inline_enum. Qed.
+Print Assumptions C04_inline_enum.
+
+(* ... exactly: a compiled inline-enum field reads back as declared iff the field lies in rt_ok
+   and the enum in the enum fragment *)
+Theorem C04_inline_enum_exact : forall here idx d i c,
+  write_inline_enum idx d i = Ok c ->
+  (read_inline_enum (env_of_decl (ie_decl (p_name d) i)) here c = Ok (norm_inline_enum here idx d i)
+   <-> inline_enum_rt d i = true).
+Proof. exact c04_inline_enum_exact. Qed.
+Print Assumptions C04_inline_enum_exact.
+
+(* non-vacuity: Foo { field x4Y array:enum { option UNSPECIFIED {| nothing}  option RED
+   items.enum.rules.notIn = ["RED"] } } — the enum is Foo_X4Y with prefix X_4_Y_, options
+   UNSPECIFIED = 0 (described), RED = 1; the rule reads back as ["RED"] *)
+Example C04_inline_enum_example :
+  let d := P [120;52;89] false false
+             (PArray None None (TEnum (Some (ER [] [[82;69;68]])) None)) [] in
+  let i := IE None None [] [([85;78;83;80;69;67;73;70;73;69;68], [110;111;116;104;105;110;103], []); ([82;69;68], [], [])] [] in
+  inline_enum_rt d i = true /\
+  exists c, write_inline_enum 1 d i = Ok c /\
+    read_inline_enum (env_of_decl (ie_decl (p_name d) i)) [[70;111;111]] c = Ok (norm_inline_enum [[70;111;111]] 1 d i) /\
+    fst (snd (norm_inline_enum [[70;111;111]] 1 d i)) = [70;111;111;95;88;52;89] /\
+    re_prefix (snd (snd (norm_inline_enum [[70;111;111]] 1 d i))) = [88;95;52;95;89;95].
+Proof.
+  split; [vm_compute; reflexivity|]. eexists. split; [vm_compute; reflexivity|].
+  split; [vm_compute; reflexivity|]. split; vm_compute; reflexivity.
+Qed.
 
 (* second clause (the printed .proto text): reflection sees a field only through
    [c04_proj] (name, number, kind, label, optional keyword, the three annotations,
@@ -190,6 +282,13 @@ Theorem C04_enum : forall e, enum_rt e = true -> read_enum (write_enum e) = Ok (
 Proof. exact c04_enum. Qed.
 Print Assumptions C04_enum.
 
+(* the enum fragment is exact: an enum declaration reads back as declared iff every
+   description survives the reader's cleaner and an explicit zero option is spelled the
+   standard way *)
+Theorem C04_enum_exact : forall e, read_enum (write_enum e) = Ok (norm_enum e) <-> enum_rt e = true.
+Proof. exact c04_enum_exact. Qed.
+Print Assumptions C04_enum_exact.
+
 (* non-vacuity: an enum with an explicit zero option, a prefixed and a short option
    name, option info and an info field lies in the fragment and reads back as declared *)
 Example C04_enum_example :
@@ -282,11 +381,28 @@ Theorem C04_array_key_informal_refuted :
 Proof. eexists. split; [vm_compute; reflexivity|]. vm_compute. discriminate. Qed.
 Print Assumptions C04_array_key_informal_refuted.
 
-(* key:custom with list rules — written as a unique_string foreign key, reads back informal *)
-Theorem C04_key_custom_listrules_refuted :
-  not_read_back (EE [] None []) (plain [97] (PSingle (TKey (Some (KCustom [94;97;36])) None (Some (LP true false false false []))))).
+(* key:custom with list rules reads back as declared since fix 240b498 (it read back
+   informal before): no longer a refutation, an instance of the fragment *)
+Example C04_key_custom_listrules_reads_back :
+  let d := plain [97] (PSingle (TKey (Some (KCustom [94;97;36])) None (Some (LP true false false false [])))) in
+  rt_ok d = true /\ exists o, write_prop (EE [] None []) 0 d = Ok o /\ read_prop (EE [] None []) o = Ok (norm_prop (EE [] None []) 0 d).
+Proof. split; [vm_compute; reflexivity|]. eexists. split; [vm_compute; reflexivity|]. vm_compute. reflexivity. Qed.
+
+(* key:custom whose pattern is the published id62 pattern — the pattern is also written as
+   the validation pattern, which the reader's well-known table turns into key:id62 *)
+Theorem C04_key_custom_id62_pattern_refuted :
+  not_read_back (EE [] None []) (plain [97] (PSingle (TKey (Some (KCustom Id62Gen.pattern_string)) None None))).
 Proof. eexists. split; [vm_compute; reflexivity|]. vm_compute. discriminate. Qed.
-Print Assumptions C04_key_custom_listrules_refuted.
+Print Assumptions C04_key_custom_id62_pattern_refuted.
+
+(* key:custom whose pattern is one of the reader's well-known patterns, with list rules —
+   the reader fails (format not compatible with list.unique_string) *)
+Theorem C04_key_custom_wellknown_listrules_fails :
+  exists o, write_prop (EE [] None []) 0
+              (plain [97] (PSingle (TKey (Some (KCustom date_pattern)) None (Some (LP true false false false []))))) = Ok o
+            /\ is_err (read_prop (EE [] None []) o) = true.
+Proof. eexists. split; [vm_compute; reflexivity|]. vm_compute. reflexivity. Qed.
+Print Assumptions C04_key_custom_wellknown_listrules_fails.
 
 (* key without format but with list rules — reads back as informal *)
 Theorem C04_key_listrules_refuted :
@@ -308,19 +424,23 @@ Print Assumptions C04_array_date_rules_refuted.
 
 (* array of flattened objects *)
 Theorem C04_array_flatten_refuted :
-  not_read_back (EE [] None []) (plain [97] (PArray None None (TObject true None))).
+  not_read_back (EE [] None []) (plain [97] (PArray None None (TObject [66;97;114] true None))).
 Proof. eexists. split; [vm_compute; reflexivity|]. vm_compute. discriminate. Qed.
 Print Assumptions C04_array_flatten_refuted.
 
-(* timestamp rules — "None Implemented": the writer emits an empty TimestampRules, the bounds are lost *)
-Theorem C04_timestamp_rules_refuted :
+(* timestamp rules — "None Implemented": the writer emits an empty TimestampRules, the bounds
+   are lost. NOT counted as a refutation of C04: no .j5s text can state a timestamp bound
+   (lib/j5reflect/value_ast.go has the Timestamp arm commented out: "unsupported scalar
+   type"), so such a declaration is not a j5s package; it exists in the source AST only.
+   Kept as a fact about the writer; rt_ok excludes it. *)
+Theorem C04_timestamp_bounds_not_written :
   not_read_back (EE [] None []) (plain [97] (PSingle (TTimestamp (Some (TSR (Some 5%Z) None None None)) None))).
 Proof. eexists. split; [vm_compute; reflexivity|]. vm_compute. discriminate. Qed.
-Print Assumptions C04_timestamp_rules_refuted.
+Print Assumptions C04_timestamp_bounds_not_written.
 
 (* object rules — minProperties / maxProperties compile to an empty constraint and are not read back *)
 Theorem C04_object_rules_refuted :
-  not_read_back (EE [] None []) (plain [97] (PSingle (TObject false (Some (OBR (Some 1) None))))).
+  not_read_back (EE [] None []) (plain [97] (PSingle (TObject [66;97;114] false (Some (OBR (Some 1) None))))).
 Proof. eexists. split; [vm_compute; reflexivity|]. vm_compute. discriminate. Qed.
 Print Assumptions C04_object_rules_refuted.
 
@@ -362,8 +482,8 @@ Theorem C04_reader_table_agrees :
   /\ forallb (fun a => ostr_eqb (model_wellknown (fst a)) (snd a)) RulesGen.reader_wellknown_literals = true
   /\ RulesGen.reader_id62_published = model_id62_reads_as_key
   (* and the writer's side of the same annotations *)
-  /\ RulesGen.writer_object_rules_empty = emits_typeless (TObject false (Some (OBR (Some 1) (Some 2))))
-  /\ RulesGen.writer_oneof_rules_empty = emits_typeless (TOneof true None).
+  /\ RulesGen.writer_object_rules_empty = emits_typeless (TObject [66;97;114] false (Some (OBR (Some 1) (Some 2))))
+  /\ RulesGen.writer_oneof_rules_empty = emits_typeless (TOneof [67] true None).
 Proof.
   exact (conj reader_int_arms_agree (conj reader_int_list_arms_agree
         (conj (proj1 reader_wellknown_agree) (conj (proj1 reader_id62_agree)
